@@ -180,6 +180,7 @@ func runQLockStep(c QCase, tolerateKnown bool) qOutcome {
 	cutAt := -1
 	insSeq := map[string]int{}
 	seq := 0
+	aboveDepth := false
 	finish := func() qOutcome {
 		for l := range labels {
 			out.Labels = append(out.Labels, l)
@@ -230,6 +231,15 @@ func runQLockStep(c QCase, tolerateKnown bool) qOutcome {
 		}
 		var f *verifkit.Failure
 
+		// Once an operator requeue/resume has lifted the active count above max_depth the admission
+		// behaviour is outside what C12 specifies (memory drains down to the limit, sqlite's single
+		// enqueue drops exactly one): differences on enqueue are not judged from there on.
+		if c.Cfg.MaxDepth > 0 && cPrev.count("queued", "leased") > c.Cfg.MaxDepth {
+			aboveDepth = true
+		}
+		if aboveDepth && op.K == "enq" && (resM.Err != resS.Err || !snapEqual(cM, cS)) {
+			return cut(i, "above-depth-regime")
+		}
 		// drop_oldest: "oldest" is by insertion on memory and by received_at on sqlite; when the two
 		// readings name different victims the outcome (including a duplicate-id refusal that
 		// depends on whether the duplicate was the victim) is a free choice.
@@ -307,6 +317,22 @@ func runQLockStep(c QCase, tolerateKnown bool) qOutcome {
 			case "stats":
 				if resM.Total != resS.Total || !sameHist(resM.ByState, resS.ByState) {
 					f = mk("stats", "memory %d %v sqlite %d %v", resM.Total, resM.ByState, resS.Total, resS.ByState)
+				} else if resM.StatsExtra != resS.StatsExtra {
+					genQueued := false
+					for id, m := range cM {
+						if strings.HasPrefix(id, "@") && m.State == "queued" {
+							genQueued = true
+						}
+					}
+					if genQueued {
+						labels["stats-extra-not-compared-generated-id"] = true
+					} else {
+						f = mk("stats-extra", "memory %s / sqlite %s", resM.StatsExtra, resS.StatsExtra)
+					}
+				}
+			case "latt":
+				if strings.Join(resM.Lookup, "\n") != strings.Join(resS.Lookup, "\n") {
+					f = mk("list-attempts", "memory %v sqlite %v", resM.Lookup, resS.Lookup)
 				}
 			case "lookup":
 				a := append([]string(nil), resM.Lookup...)
